@@ -187,3 +187,19 @@ PROPS["C12"] = Spec(
     bounds={"quick": "<=30 script items per case, 4x2500", "thorough": "<=60 items, 16x20000"},
     assumptions=COMMON_ASSUMPTIONS,
 )
+
+PROPS["C08"] = Spec(
+    engine="harness.engines.svctasks", quick_cases=2500, thorough_cases=20000,
+    rule="a root or nested context with 2-8 (thorough 2-12) registrations mixing plain teardown callbacks, resources with (async) "
+    "teardown callbacks and start_service_task with teardown_action in {cancel, None, sync callable, async callable, callable "
+    "raising Exception, callable raising BaseException} and task behaviour in {ends by itself after d ticks, runs until told then "
+    "needs c ticks, runs until cancelled then needs c shielded ticks of cleanup, crashes after d ticks}, with/without "
+    "task_status.started(), with/without a teardown callback registered inside the task's own context; block ends by return or "
+    "exception after 0-6 ticks; oracle on the marker trace: action invoked once and only after everything registered later has "
+    "finished, nothing registered earlier begins its teardown before the task and its context have finished, cancellation observed "
+    "exactly for cancel / raising-callable tasks still running, all tasks ended before the block is left, start value, resource "
+    "snapshot, crash surfaces from the root block and cancels the body; non-trivial = a service task with cleanup time>0 that has "
+    "registrations both before and after it",
+    bounds={"quick": "2-8 registrations, 4x2500", "thorough": "2-12 registrations, 16x20000"},
+    assumptions=COMMON_ASSUMPTIONS,
+)
